@@ -296,6 +296,11 @@ def run(ctx):
                                 bad = 'row %d of the product is not sum_c M[c][%d]*v[c]%s' % (rr, rr, ' + translation' if affine and point else '')
                                 break
                 done('R-ALG', name, bad, it)
+        # Product over iterators of affine transforms: a left fold of * from IDENTITY (generic bodies, rules/fold.py)
+        import fold
+        nfold = fold.check_folds(ctx, cfg, F, H, lambda tn: 'float' if tn in ('Affine2', 'Affine3A', 'DAffine2', 'DAffine3') else None, done,
+                                 product_unit=lambda tn, n: {6: [1, 0, 0, 1, 0, 0], 12: [1, 0, 0, 0, 1, 0, 0, 0, 1, 0, 0, 0]}.get(n))
+        ctx.floor('affine Product impls (%s)' % cfg, nfold, 4)
         # associated constants ZERO / IDENTITY / NAN of the matrix and affine types, entry by entry
         Ic = H.new_interp()
         n_const = 0
